@@ -1,14 +1,165 @@
 /-
-C18 — context-local data never leaks between concurrent contexts (partial).
+C18 — context-local data never leaks between concurrent contexts  (*partial*).
 Property theorems only (helper lemmas live in Lemmas/Local.lean).
+
+The model (Model/Local.lean): a heap of dict / list objects, one `var ↦ object id` map per context,
+`copyCtx` = child shares the parent's references, `freshCtx` = empty; method calls are the effect
+lists translated from local.py on every run (Gen/LocalOps.lean). `obs w c v` is what context `c`
+observes of the local bound to var `v` (the content of the dict / list it would get).
+Out of the model: the guarantees of `contextvars`, GIL atomicity of one call, real preemption.
 -/
-import WzVerif.Model.Local
+import WzVerif.Lemmas.Local
 namespace Wz.Props.C18
-open Wz Wz.Local
+open Wz Wz.Local Wz.Gen.LocalOps
 
 /-- Every method body translated from the current `local.py` obeys the copy-on-write discipline:
 each in-place mutation (`values[name] = …`, `del values[name]`, `stack.append(…)`) targets an object
 allocated earlier in the same call. This is the obligation a dropped `.copy()` breaks. -/
 theorem generated_programs_cow : ∀ p ∈ Gen.LocalOps.programs, CopyBeforeWrite p.2 := by decide
+
+/-- The discipline is not vacuous: the body of `__setattr__` without its `.copy()` is rejected. -/
+theorem cow_rejects_missing_copy :
+    ¬ CopyBeforeWrite [[.load 0 false, .setItem 0, .store 0, .retNone]] := by decide
+
+/-- Every world reachable from the initial one by disciplined calls and context creations is
+well-formed (`WF`: references point to allocated objects) - the standing hypothesis below. -/
+theorem reachable_wf (es : List Event) (hc : ∀ e ∈ es, e.cbw) : WF (run World.init es) :=
+  (run_inv wf_init es hc).1
+
+/-- **Meta-theorem (isolation).** If every method body that runs satisfies `CopyBeforeWrite`, then
+for EVERY interleaving `es` of calls from any number of contexts, mixed with `copyCtx` / `freshCtx`
+at any point: whatever an existing context `c'` observes of a var `v'` is unchanged unless an event
+of `es` is a call *in `c'` itself on that var* - even while parent and children hold references to
+the very same dict / list object. -/
+theorem cow_isolation (w : World) (hw : WF w) (es : List Event) (hc : ∀ e ∈ es, e.cbw)
+    (c' v' : Nat) (hc' : c' < w.nctx) (hnt : ∀ e ∈ es, ¬ e.touches c' v') :
+    obs (run w es) c' v' = obs w c' v' :=
+  (run_inv hw es hc).2.2 c' v' hc' hnt
+
+/-- hypotheses are satisfiable, and sharing really occurs in the model: after `copyCtx` the child
+holds the parent's object id -/
+example : WF World.init := wf_init
+example : ∀ e ∈ [Event.call 0 0 localSetattr ⟨1, 5⟩, .copyCtx 0, .call 1 0 localSetattr ⟨2, 6⟩], e.cbw := by
+  intro e he
+  simp only [List.mem_cons, List.mem_nil_iff, or_false] at he
+  rcases he with rfl | rfl | rfl
+  · show CopyBeforeWrite _; decide
+  · trivial
+  · show CopyBeforeWrite _; decide
+example : (run World.init [.call 0 0 localSetattr ⟨1, 5⟩, .copyCtx 0]).ctxs 1 0
+    = (run World.init [.call 0 0 localSetattr ⟨1, 5⟩, .copyCtx 0]).ctxs 0 0 := by decide
+
+/-- The discipline is necessary: with the copy dropped from `__setattr__`, a child's assignment
+becomes visible in its parent (the exact interleaving the harness corpus starts with). -/
+theorem missing_copy_leaks :
+    let bad : Prog := [[.load 0 false, .setItem 0, .store 0, .retNone]]
+    let w1 := run World.init [.call 0 0 localSetattr ⟨1, 5⟩, .copyCtx 0]
+    obs (run w1 [.call 1 0 bad ⟨2, 6⟩]) 0 0 ≠ obs w1 0 0 := by decide
+
+/-- Isolation for the code as it is: every interleaving of the translated method bodies. -/
+theorem cow_isolation_generated (w : World) (hw : WF w) (es : List Event)
+    (hg : ∀ e ∈ es, match e with
+      | .call _ _ p _ => ∃ n, (n, p) ∈ Gen.LocalOps.programs
+      | _ => True)
+    (c' v' : Nat) (hc' : c' < w.nctx) (hnt : ∀ e ∈ es, ¬ e.touches c' v') :
+    obs (run w es) c' v' = obs w c' v' := by
+  apply cow_isolation w hw es _ c' v' hc' hnt
+  intro e he
+  have := hg e he
+  cases e with
+  | call c v p a =>
+    obtain ⟨n, hn⟩ := this
+    exact generated_programs_cow (n, p) hn
+  | copyCtx _ => trivial
+  | freshCtx => trivial
+
+/-- **Snapshot.** A child created by `copyCtx parent` observes exactly what the parent observed at
+that moment, and keeps observing exactly that under every later interleaving of operations by the
+parent, its siblings and their descendants - until it performs an operation itself. -/
+theorem child_snapshot (w : World) (hw : WF w) (parent : Nat) (hp : parent < w.nctx)
+    (es : List Event) (hc : ∀ e ∈ es, e.cbw) (v : Nat)
+    (hnt : ∀ e ∈ es, ¬ e.touches w.nctx v) :
+    obs (run (stepEvent w (.copyCtx parent)) es) w.nctx v = obs w parent v := by
+  obtain ⟨h1, _, _⟩ := stepEvent_inv hw (.copyCtx parent) trivial
+  rw [(run_inv h1 es hc).2.2 w.nctx v (by simp [stepEvent]) hnt]
+  simp [obs, stepEvent, hp]
+
+example : (1 : Nat) < (run World.init [.freshCtx]).nctx := by decide
+
+/-- A context that did not inherit (new thread, `contextvars.Context()`) observes nothing, whatever
+the other contexts have stored or store later. -/
+theorem fresh_context_unbound (w : World) (hw : WF w) (es : List Event) (hc : ∀ e ∈ es, e.cbw)
+    (v : Nat) (hnt : ∀ e ∈ es, ¬ e.touches w.nctx v) :
+    obs (run (stepEvent w .freshCtx) es) w.nctx v = none := by
+  obtain ⟨h1, _, _⟩ := stepEvent_inv hw .freshCtx trivial
+  rw [(run_inv h1 es hc).2.2 w.nctx v (by simp [stepEvent]) hnt]
+  simp [obs, stepEvent]
+
+/-- **Refinement of the per-context reference.** One call of a translated method body in context `c`
+on var `v` acts on what `c` observes exactly like the pure reference function `refCall` on an
+immutable mapping / stack (same new payload, same return value / `AttributeError`), and changes no
+other observation of any existing context. This is the reference model the harness oracle runs. -/
+theorem call_refines_reference (w : World) (hw : WF w) (c v : Nat) (hc : c < w.nctx) (a : Args)
+    (m : Method) (ht : Typed m (obs w c v)) :
+    let w' := stepEvent w (.call c v m.prog a)
+    obs w' c v = (refCall m a (obs w c v)).1 ∧
+    (runProg w c v a m.prog).2 = (refCall m a (obs w c v)).2 ∧
+    ∀ c' v', c' < w.nctx → ¬(c' = c ∧ v' = v) → obs w' c' v' = obs w c' v' := by
+  have hcbw : CopyBeforeWrite m.prog := by cases m <;> decide
+  obtain ⟨h1, h2⟩ := refine_call w c v a m ht
+  refine ⟨by simpa [stepEvent, hc] using h1, h2, ?_⟩
+  intro c' v' hc' hne
+  apply (stepEvent_inv hw (.call c v m.prog a) hcbw).2.2 c' v' hc'
+  intro ht; exact hne ⟨ht.1.symm, ht.2.symm⟩
+
+example : Typed .setattr (obs World.init 0 0) := Or.inl rfl
+example : Typed .pop (obs (stepEvent World.init (.call 0 1 stackPush ⟨0, 7⟩)) 0 1) :=
+  Or.inr ⟨[7], by decide⟩
+
+/-- **Release is local.** `__release_local__` (hence `release_local` and `LocalManager.cleanup`)
+leaves the releasing context with an empty mapping / stack and changes what no other context, and
+no other local of the same context, observes. -/
+theorem release_local_only (w : World) (hw : WF w) (c v : Nat) (hc : c < w.nctx) (stack : Bool) :
+    let p := if stack then stackRelease else localRelease
+    let w' := stepEvent w (.call c v p {})
+    obs w' c v = some (Obj.empty stack) ∧
+    ∀ c' v', c' < w.nctx → ¬(c' = c ∧ v' = v) → obs w' c' v' = obs w c' v' := by
+  have hcbw : CopyBeforeWrite (if stack then stackRelease else localRelease) := by
+    cases stack <;> decide
+  refine ⟨?_, ?_⟩
+  · cases stack <;>
+    simp [stepEvent, hc, obs, localRelease, stackRelease, runProg, runPath, stepOp, alloc, bindVar,
+      setReg, Obj.empty]
+  · intro c' v' hc' hne
+    apply (stepEvent_inv hw (.call c v _ {}) hcbw).2.2 c' v' hc'
+    intro ht; exact hne ⟨ht.1.symm, ht.2.symm⟩
+
+/-- **Proxies resolve in the accessing context.** What `proxy._get_current_object()` yields in
+context `c` is a function of what `c` itself observes: no interleaving of operations by other
+contexts (or on other locals) changes it. -/
+theorem proxy_resolves_in_accessing_context (w : World) (hw : WF w) (es : List Event)
+    (hc : ∀ e ∈ es, e.cbw) (c : Nat) (hcn : c < w.nctx) (p : Proxy)
+    (hnt : ∀ e ∈ es, ¬ e.touches c p.var) :
+    proxyView (run w es) c p = proxyView w c p := by
+  have := resolve_congr (c := c) p (cow_isolation w hw es hc c p.var hcn hnt)
+  simp [proxyView, this]
+
+/-- ... it is the value bound there: the attribute of the accessing context's mapping, resp. the
+top of its stack ... -/
+theorem proxy_resolves_to_bound_object (w : World) (c v k : Nat) :
+    resolve w c (.attr v k) = (match obs w c v with | some (.dict kv) => dictGet kv k | _ => none) ∧
+    resolve w c (.top v) = (match obs w c v with | some (.list xs) => xs.getLast? | _ => none) :=
+  ⟨resolve_attr_eq w c v k, resolve_top_eq w c v⟩
+
+/-- ... and where nothing is bound the proxy reports itself unbound on all three faces:
+`_get_current_object()` raises RuntimeError, `bool(proxy)` is False, `repr` is the fallback. -/
+theorem proxy_unbound_reports (w : World) (c : Nat) (p : Proxy) (h : resolve w c p = none) :
+    proxyView w c p = { obj := none, truthy := false, fallbackRepr := true } := by
+  simp [proxyView, h]
+
+example : resolve World.init 0 (.attr 0 1) = none := by decide
+example : resolve (run World.init [.call 0 0 localSetattr ⟨1, 5⟩]) 0 (.attr 0 1) = some 5 := by decide
+example : resolve (run World.init [.call 0 0 localSetattr ⟨1, 5⟩, .freshCtx]) 1 (.attr 0 1) = none := by
+  decide
 
 end Wz.Props.C18
